@@ -22,6 +22,7 @@ mod hll;
 mod hostq;
 mod rumqtt;
 mod hcmd;
+mod smgr;
 
 use common::*;
 use std::path::{Path, PathBuf};
@@ -55,6 +56,7 @@ fn replay_file(comp: &str, path: &Path, out: &mut Out) {
         "hostq" => hostq::replay(&desc, &ops, out),
         "rumqtt" => rumqtt::replay(&desc, &ops, out),
         "hcmd" => hcmd::replay(&desc, &ops, out),
+        "smgr" => smgr::replay(&desc, &ops, out),
         _ => panic!("unknown component"),
     }
 }
@@ -172,6 +174,7 @@ fn main() {
         "hostq" => hostq::run(&args, &mut out),
         "rumqtt" => rumqtt::run(&args, &mut out),
         "hcmd" => hcmd::run(&args, &mut out),
+        "smgr" => smgr::run(&args, &mut out),
         _ => {
             eprintln!("unknown component {}", comp);
             std::process::exit(2)
